@@ -178,7 +178,12 @@ void vr_case(uint64_t seed, uint64_t idx, int profile)
     R = vr_rng_make(seed, idx, 0xC01 + (uint64_t)profile);
     tiemode = profile == 1;
     static const double starts[] = { 0.0, -100.0, 1e12, 0.0 };
-    double t0 = starts[vr_below(&R, 4)];
+    /* one case in three gives the thread's event queue a second and third life (terminate, initialise again at another start time) */
+    int nlives = vr_chance(&R, 1, 3) ? 2 + (int)vr_below(&R, 2) : 1;
+    double t0 = 0.0;
+    for (int life = 0; life < nlives && vr_nviol == 0; life++) {
+    t0 = starts[vr_below(&R, 4)];
+    if (life) VR_CNT("queue_lives_after_the_first");
     cmb_event_queue_initialize(t0);
     mn = 0; ndead = 0; have_last = false; last_handle = 0; in_action = 0; executed = ties_time = ties_timeprio = inaction_mut = 0;
     clear_requested = vr_chance(&R, 1, 3) ? 1 : 0;
@@ -211,6 +216,7 @@ void vr_case(uint64_t seed, uint64_t idx, int profile)
     /* cancel on the now empty queue must simply return false */
     if (vr_nviol == 0 && ndead) { VR_CNT("op_cancel_on_empty_queue"); if (cmb_event_cancel(dead[0])) vr_violation("C01/cancel-dead", "cancel on empty queue returned true"); }
     if (vr_nviol == 0) cmb_event_queue_terminate();
+    }
     if (ties_time > 0 && inaction_mut > 0) vr_mark_nontrivial();
     if (idx % 149 == 0) vr_sample("profile=%d start=%g target_pop=%zu executed=%d time_ties=%d time+prio_ties=%d in-action mutations=%d", profile, t0, target_pop, executed, ties_time, ties_timeprio, inaction_mut);
 }
